@@ -171,7 +171,8 @@ LayStmt(s, st, sigma, active) ==
         LET v == Operand(s.e, st, sigma) IN
         IF v.k = "unres" THEN [st EXCEPT !.unres = TRUE]
         ELSE IF v.k # "num" \/ v.n < 0 \/ v.n > 65535 THEN [st EXCEPT !.bad = TRUE]
-        ELSE [st EXCEPT !.segs[st.cur].pc = v.n]
+        ELSE IF v.n - st.segs[st.cur].toff < 0 \/ v.n - st.segs[st.cur].toff > 65535 THEN [st EXCEPT !.bad = TRUE]
+        ELSE [st EXCEPT !.segs[st.cur].pc = v.n - st.segs[st.cur].toff]       \* `*' is the address the code runs at (see Asm.tla)
     [] s.k = "useseg" ->
         IF s.name \notin DOMAIN st.segs THEN [st EXCEPT !.bad = TRUE]
         ELSE [LaySeq(s.body, [st EXCEPT !.cur = s.name], sigma, active) EXCEPT !.cur = st.cur]
